@@ -28,18 +28,22 @@ class FakeStream:
             self.fut.set_exception(StreamClosedError())
 
 
-def run(ch, fams, modes, ctimeout):
+def run(ch, fams, modes, ctimeout, alias=None):
     import asyncio
     from tornado.tcpclient import _Connector
+    alias = tuple(alias) if alias else tuple(range(len(fams)))
     with World() as w:
-        addrinfo = [(AF[f], ("addr%d" % i, 80)) for i, f in enumerate(fams)]
+        # alias[i] < i: entry i of the resolved list repeats the address of entry alias[i] (duplicate records)
+        addrinfo = [(AF[f], ("addr%d" % alias[i], 80)) for i, f in enumerate(fams)]
         streams = {}
         trace = []
         inflight = {}
         max_inflight = {4: 0, 6: 0}
 
         def connect(af, addr):
-            i = int(addr[0][4:])
+            a = int(addr[0][4:])
+            fresh = [j for j in range(len(fams)) if alias[j] == a and ("start", j) not in trace]
+            i = fresh[0] if fresh else a
             if ("start", i) in trace:
                 # an address is attempted at most once; answering with a pending stream also ends any runaway retry
                 trace.append(("retried", i))
@@ -49,6 +53,8 @@ def run(ch, fams, modes, ctimeout):
             trace.append(("start", i))
             if modes[i] == "raises":
                 raise OSError(97, "Address family not supported (addr %d)" % i)
+            if modes[i] == "raises-other":
+                raise OverflowError("bind(): port must be 0-65535. (addr %d)" % i)
             fut = asyncio.Future()
             s = FakeStream(i, fut)
             streams[i] = s
@@ -125,7 +131,7 @@ def judge(fams, modes, ctimeout, o):
     for ev in o["trace"]:
         if ev[0] == "start":
             i = ev[1]
-            if modes[i] in ("prefailed", "raises"):
+            if modes[i] in ("prefailed", "raises", "raises-other"):
                 failed.add(i)
         elif ev[0] == "succeed":
             if want is None:
@@ -190,21 +196,35 @@ def judge(fams, modes, ctimeout, o):
 
 
 def scenarios(maxlen, with_raises):
-    ms = ("pending", "prefailed") + (("raises",) if with_raises else ())
+    ms = ("pending", "prefailed") + (("raises", "raises-other") if with_raises else ())
     for n in range(1, maxlen + 1):
         for fams in itertools.product((4, 6), repeat=n):
             for modes in itertools.product(ms, repeat=n):
                 if sum(m != "pending" for m in modes) > 2:
                     continue
                 for ct in (False, True):
-                    yield fams, modes, ct
+                    yield fams, modes, ct, None
+    # the resolved list repeats an address
+    for n in range(2, min(maxlen, 4) + 1):
+        for fams in itertools.product((4, 6), repeat=n):
+            for alias in itertools.product(*[range(i + 1) for i in range(n)]):
+                if all(alias[i] == i for i in range(n)):
+                    continue
+                if any(alias[alias[i]] != alias[i] or fams[alias[i]] != fams[i] for i in range(n)):
+                    continue
+                for modes in itertools.product(("pending", "prefailed"), repeat=n):
+                    if sum(m != "pending" for m in modes) > 2:
+                        continue
+                    for ct in (False, True):
+                        yield fams, modes, ct, alias
 
 
 class C10(Check):
     id = "C10"
     level = "model_checking"
     rule = ("every address list in {4,6}^{1..N} x per-address mode {pending, already-failed future, connect "
-            "raises} (at most two non-pending) x connect timeout on/off; at each quiescent point the explorer "
+            "raises OSError, connect raises another exception} (at most two non-pending), plus lists of <= 4 entries in which "
+            "an entry repeats an earlier address, x connect timeout on/off; at each quiescent point the explorer "
             "picks one enabled event {attempt i succeeds, attempt i fails, earliest timer fires}; exhaustive "
             "(no deviation bound); (b) the public TCPClient.connect() with a fake resolver and fake sockets under the real "
             "IOStream: address lists in {4,6}^{1..2} (thorough 3) x timeout {none, 5.0, timedelta 1.5 s, timedelta 1 day "
@@ -229,24 +249,25 @@ class C10(Check):
             c10_client.run_all(tier, st, part[1], part[2])
             return
         N, s, nsl = part
-        for k, (fams, modes, ct) in enumerate(scenarios(N, True)):
+        for k, (fams, modes, ct, alias) in enumerate(scenarios(N, True)):
             if k % nsl != s:
                 continue
 
-            def on_exec(ch, o, fams=fams, modes=modes, ct=ct):
+            def on_exec(ch, o, fams=fams, modes=modes, ct=ct, alias=alias):
                 st.ev()
                 st.transitions += len(ch.trace)
-                key = h((fams, modes, ct, tuple(ch.choices())))
+                key = h((fams, modes, ct, alias, tuple(ch.choices())))
                 st.states.add(key)
                 if len(ch.trace) >= 2:
                     st.nontrivial.add(key)
                 st.outcome(h((o["res"][:2], tuple(sorted(o["closed"].items())))))
                 for sig, msg in judge(fams, modes, ct, o):
-                    st.violation(sig + (":raises" if "raises" in modes else ""),
-                                 "addresses %r modes %r connect_timeout=%r schedule %r: %s"
-                                 % (fams, modes, ct, o["trace"], msg),
-                                 {"fams": fams, "modes": modes, "ct": ct, "choices": ch.choices()})
-            n, edges, capped = devex.explore(lambda ch: run(ch, fams, modes, ct), bound=None, on_exec=on_exec,
+                    st.violation(sig + (":raises" if "raises" in modes else ":raises-other" if "raises-other" in modes else "")
+                                 + (":duplicate-address" if alias else ""),
+                                 "addresses %r%s modes %r connect_timeout=%r schedule %r: %s"
+                                 % (fams, " (entry i repeats entry %r)" % (alias,) if alias else "", modes, ct, o["trace"], msg),
+                                 {"fams": fams, "modes": modes, "ct": ct, "alias": alias, "choices": ch.choices()})
+            n, edges, capped = devex.explore(lambda ch: run(ch, fams, modes, ct, alias), bound=None, on_exec=on_exec,
                                              max_execs=200000)
             if capped:
                 st.note("cap_hit")
@@ -259,7 +280,7 @@ class C10(Check):
             from checks import c10_client
             return c10_client.replay(case)
         fams, modes, ct = tuple(case["fams"]), tuple(case["modes"]), case["ct"]
-        o = run(devex.Chooser(case["choices"]), fams, modes, ct)
+        o = run(devex.Chooser(case["choices"]), fams, modes, ct, case.get("alias"))
         return "families %r modes %r connect_timeout %r\n%r\nverdict %r" % (fams, modes, ct, o, judge(fams, modes, ct, o))
 
 
